@@ -400,15 +400,19 @@ func checkValue(c *core.Case, v reflect.Value, allSettings bool) {
 		}
 		// MarshalIndent
 		if fi == 0 || allSettings {
-			indentBoth := func(x any) (p, s outcome) {
-				p.sig, p.stk = core.Guard(func() { p.b, p.err = json.MarshalIndent(x, "p", " ") })
-				s.sig, s.stk = core.Guard(func() { s.b, s.err = stdjson.MarshalIndent(x, "p", " ") })
-				return
+			for _, pi := range [][2]string{{"p", " "}, {"", ""}, {"", "\t"}, {">", ""}} {
+				pi := pi
+				indentBoth := func(x any) (p, s outcome) {
+					p.sig, p.stk = core.Guard(func() { p.b, p.err = json.MarshalIndent(x, pi[0], pi[1]) })
+					s.sig, s.stk = core.Guard(func() { s.b, s.err = stdjson.MarshalIndent(x, pi[0], pi[1]) })
+					return
+				}
+				if how := differs(indentBoth(x)); how != "" {
+					reportWith(c, indentBoth, "MarshalIndent", fv, how, fmt.Sprintf("prefix %q indent %q", pi[0], pi[1]))
+					break
+				}
+				c.Count("calls.MarshalIndent", 1)
 			}
-			if how := differs(indentBoth(x)); how != "" {
-				reportWith(c, indentBoth, "MarshalIndent", fv, how, "")
-			}
-			c.Count("calls.MarshalIndent", 1)
 		}
 		n := 2
 		if allSettings {
